@@ -620,6 +620,63 @@ fn run_both_tree_k(_case: &Value, inputs: &Value) -> Value {
     json!({"stepper": stepper, "clvmr": cl})
 }
 
+// modern output optimiser on a CLVM program: value before and after, judged by clvmr
+fn output_optimize_k(_case: &Value, inputs: &Value) -> Value {
+    use chialisp::classic::clvm_tools::stages::stage_0::TRunProgram;
+    use chialisp::compiler::clvm::{convert_from_clvm_rs, convert_to_clvm_rs, NewStyleIntConversion};
+    use chialisp::compiler::compiler::DefaultCompilerOpts;
+    use chialisp::compiler::comptypes::CompilerOpts;
+    use chialisp::compiler::dialect::AcceptedDialect;
+    use chialisp::compiler::optimize::get_optimizer;
+    use chialisp::compiler::srcloc::Srcloc;
+    let _g = NewStyleIntConversion::new(true);
+    let mut a = Allocator::new();
+    let p = json_to_tree(&mut a, &inputs["prog"]);
+    let e = json_to_tree(&mut a, &inputs["env"]);
+    let runner = DefaultProgramRunner::new();
+    let before = match runner.run_program(&mut a, p, e, None) {
+        Ok(r) => json!({"ok": tree_to_json(&a, r.1)}),
+        Err(_) => json!({"err": true}),
+    };
+    let l = Srcloc::start("*t*");
+    let rp = convert_from_clvm_rs(&mut a, l.clone(), p).unwrap();
+    let opts: Rc<dyn CompilerOpts> = Rc::new(DefaultCompilerOpts::new("*t*")).set_optimize(true)
+        .set_dialect(AcceptedDialect { stepping: Some(23), strict: true, int_fix: true });
+    let mut optimizer = match get_optimizer(&l, opts.clone()) { Ok(o) => o, Err(_) => return json!({"before": before, "optimizer": "none"}) };
+    let borrowed: &chialisp::compiler::sexp::SExp = &rp;
+    let out = match optimizer.post_codegen_output_optimize(opts, borrowed.clone()) {
+        Ok(o) => o,
+        Err(_) => return json!({"before": before, "after": {"err": true}, "rejected": true}),
+    };
+    let ot = convert_to_clvm_rs(&mut a, Rc::new(out)).unwrap();
+    let after = match runner.run_program(&mut a, ot, e, None) {
+        Ok(r) => json!({"ok": tree_to_json(&a, r.1)}),
+        Err(_) => json!({"err": true}),
+    };
+    json!({"before": before, "optimized": tree_to_json(&a, ot), "after": after})
+}
+
+// brief_path_selection through the public function on a chain of f/r over an integer path
+fn brief_chain_k(_case: &Value, inputs: &Value) -> Value {
+    use chialisp::compiler::optimize::brief::brief_path_selection;
+    use chialisp::compiler::sexp::SExp as R;
+    use chialisp::compiler::srcloc::Srcloc;
+    use num_bigint::{BigInt, Sign};
+    let l = Srcloc::start("*t*");
+    let x = BigInt::from_bytes_be(Sign::Plus, &bytes_of(&inputs["x"]));
+    let mut body = Rc::new(R::Integer(l.clone(), x));
+    for b in inputs["ops"].as_array().unwrap() {
+        let op: BigInt = if b.as_bool().unwrap() { 6u32.into() } else { 5u32.into() };
+        body = Rc::new(R::Cons(l.clone(), Rc::new(R::Integer(l.clone(), op)),
+                               Rc::new(R::Cons(l.clone(), body, Rc::new(R::Nil(l.clone()))))));
+    }
+    let (_, out) = brief_path_selection(body);
+    match &*out {
+        R::Integer(_, i) => json!({"path": i.to_string()}),
+        _ => json!({"other": true}),
+    }
+}
+
 // assemble(text) -> tree (used to evaluate constant patterns natively)
 fn assemble_k(_case: &Value, inputs: &Value) -> Value {
     let mut a = Allocator::new();
@@ -634,6 +691,8 @@ pub fn dispatch(kernel: &str, case: &Value, inputs: &Value) -> Value {
         "assemble" => assemble_k(case, inputs),
         "int_from_bytes" => int_from_bytes_k(case, inputs),
         "decode" => decode_k(case, inputs),
+        "brief_chain" => brief_chain_k(case, inputs),
+        "output_optimize" => output_optimize_k(case, inputs),
         "run_both_tree" => run_both_tree_k(case, inputs),
         "classic_compile_run" => classic_compile_run_k(case, inputs),
         "name_lookup" => compile_run_k(case, inputs),
